@@ -40,7 +40,7 @@ def configs(tier):
 
 def main():
     rep = Report("C14", "exploration")
-    maxn = 3 if rep.tier == "quick" else 5
+    maxn = 3 if rep.tier == "quick" else 6
     src = C.read_text(os.path.join(C.RT, "c14_driver.cpp"))
     exp_cells, exp_strlen = expected_cells(maxn)
     rep.rule("exhaustive: N in 0..%d x every initial content over {NUL,a,b}^N x every input of length 0..N over the "
